@@ -63,6 +63,7 @@ type Session struct {
 type Event map[string]any
 
 const (
+	dialTimeout      = 60 * time.Millisecond
 	readTimeout      = 40 * time.Millisecond
 	handshakeTimeout = 600 * time.Millisecond
 )
@@ -158,7 +159,9 @@ func Run(s Session) ([]Event, error) {
 		cs = append(cs, ch.Setting{Key: kv.K, Value: kv.V, Important: kv.I})
 	}
 	opts := ch.Options{Dialer: d, ProtocolVersion: s.ClientRev, Database: s.Database, User: s.User, Password: s.Password, QuotaKey: s.QuotaKey,
-		Compression: comp, ReadTimeout: readTimeout, HandshakeTimeout: handshakeTimeout, Settings: cs, ClientName: "verif"}
+		Compression: comp, ReadTimeout: readTimeout, HandshakeTimeout: handshakeTimeout, Settings: cs, ClientName: "verif",
+		// shorter than the late hello's delay: the time allowed for dialling must not bound the handshake
+		DialTimeout: dialTimeout}
 	t0 := time.Now()
 	cl, err := ch.Dial(context.Background(), opts)
 	elapsed := time.Since(t0)
